@@ -71,8 +71,11 @@ def make_reply(outcome, request):
     qname = q.name
     r = dns.message.make_response(request)
     if outcome == "answer":
-        rrs = r.find_rrset(r.answer, qname, IN, q.rdtype, create=True)
-        rrs.add(dns.rdata.from_text("IN", "A", "10.0.0.1"), 30)
+        rrs = r.find_rrset(r.answer, qname, q.rdclass, q.rdtype, create=True)
+        if q.rdtype == A and q.rdclass == IN:
+            rrs.add(dns.rdata.from_text("IN", "A", "10.0.0.1"), 30)
+        else:
+            rrs.add(dns.rdata.from_text(q.rdclass, q.rdtype, '"10.0.0.1"'), 30)
     elif outcome.startswith("chain"):
         n = int(outcome[5:])
         names = chain_names(qname, n)
@@ -92,14 +95,14 @@ def make_reply(outcome, request):
         if outcome == "dangling-nx":
             r.set_rcode(dns.rcode.NXDOMAIN)
     elif outcome == "nodata":
-        rrs = r.find_rrset(r.authority, qname.parent(), IN, dns.rdatatype.SOA, create=True)
-        rrs.add(dns.rdata.from_text("IN", "SOA", "m. r. 1 2 3 4 7"), 40)
+        rrs = r.find_rrset(r.authority, qname.parent(), q.rdclass, dns.rdatatype.SOA, create=True)
+        rrs.add(dns.rdata.from_text(q.rdclass, "SOA", "m. r. 1 2 3 4 7"), 40)
     elif outcome == "nodata-nosoa":
         pass
     elif outcome == "nxdomain":
         r.set_rcode(dns.rcode.NXDOMAIN)
-        rrs = r.find_rrset(r.authority, qname.parent(), IN, dns.rdatatype.SOA, create=True)
-        rrs.add(dns.rdata.from_text("IN", "SOA", "m. r. 1 2 3 4 9"), 40)
+        rrs = r.find_rrset(r.authority, qname.parent(), q.rdclass, dns.rdatatype.SOA, create=True)
+        rrs.add(dns.rdata.from_text(q.rdclass, "SOA", "m. r. 1 2 3 4 9"), 40)
     elif outcome == "nx-with-answer":
         r.set_rcode(dns.rcode.NXDOMAIN)
         rrs = r.find_rrset(r.answer, qname, IN, q.rdtype, create=True)
@@ -239,18 +242,21 @@ def run_real(cfg, script, is_async):
     start = env.clock.now
     res = exc = None
     kwargs = dict(tcp=cfg["tcp"], raise_on_no_answer=cfg["raise_on_no_answer"], search=cfg["search_arg"])
+    qtype = cfg.get("rdtype", "A")
+    if cfg.get("rdclass"):
+        kwargs["rdclass"] = cfg["rdclass"]
     if "call_lifetime" in cfg:
         kwargs["lifetime"] = cfg["call_lifetime"]
     try:
         if is_async:
-            coro = r.resolve(cfg["qname"], "A", backend=FakeBackend(env.clock), **kwargs)
+            coro = r.resolve(cfg["qname"], qtype, backend=FakeBackend(env.clock), **kwargs)
             try:
                 coro.send(None)
                 raise AssertionError("coroutine suspended")
             except StopIteration as si:
                 res = si.value
         else:
-            res = r.resolve(cfg["qname"], "A", **kwargs)
+            res = r.resolve(cfg["qname"], qtype, **kwargs)
     except NeedMore:
         raise
     except (dns.exception.DNSException,) as e:
@@ -261,21 +267,41 @@ def run_real(cfg, script, is_async):
     if r.cache is not None:
         keys = []
         for k in list(r.cache.data.keys()):
-            keys.append((k[0].to_text(), dns.rdatatype.to_text(k[1])))
+            keys.append((k[0].to_text(), dns.rdatatype.to_text(k[1]), dns.rdataclass.to_text(k[2])))
         obs["cache_keys"] = sorted(keys)
+        if cfg.get("rdclass") and exc is None or isinstance(exc, (dns.resolver.NXDOMAIN, dns.resolver.NoAnswer)):
+            # results are cached under the queried *class*: the same name and type in class IN
+            # must not be answered (or denied) from what was cached for another class
+            if cfg.get("rdclass"):
+                k2 = dict(kwargs, rdclass="IN")
+                pos0 = env.pos
+                try:
+                    if is_async:
+                        c2 = r.resolve(cfg["qname"], qtype, backend=FakeBackend(env.clock), **k2)
+                        try:
+                            c2.send(None)
+                        except StopIteration:
+                            pass
+                    else:
+                        r.resolve(cfg["qname"], qtype, **k2)
+                    obs["other_class_probe"] = "served-without-query"
+                except NeedMore:
+                    obs["other_class_probe"] = "queried"
+                except dns.exception.DNSException as e:
+                    obs["other_class_probe"] = "raised-without-query:" + type(e).__name__
         # a second resolution right away must be served from the cache with no query
         if exc is None or isinstance(exc, (dns.resolver.NXDOMAIN, dns.resolver.NoAnswer)):
             env2_pos = env.pos
             nq = len(env.queries)
             try:
                 if is_async:
-                    coro = r.resolve(cfg["qname"], "A", backend=FakeBackend(env.clock), **kwargs)
+                    coro = r.resolve(cfg["qname"], qtype, backend=FakeBackend(env.clock), **kwargs)
                     try:
                         coro.send(None)
                     except StopIteration as si:
                         res2, exc2 = si.value, None
                 else:
-                    res2, exc2 = r.resolve(cfg["qname"], "A", **kwargs), None
+                    res2, exc2 = r.resolve(cfg["qname"], qtype, **kwargs), None
             except NeedMore:
                 res2, exc2 = None, "queried-again"
             except dns.exception.DNSException as e:
@@ -352,7 +378,7 @@ def ref_resolve(cfg, script):
     def done(kind, **kw):
         d = {"queries": queries, "sleeps": sleeps, "result": dict(kind=kind, **kw), "elapsed": round(clock, 6), "consumed": pos}
         if cfg["cache"] != "none":
-            d["cache_keys"] = sorted(cache.keys())
+            d["cache_keys"] = sorted((k[0], k[1] if k[1] == "ANY" else cfg.get("rdtype", "A"), cfg.get("rdclass", "IN")) for k in cache.keys())
         return d
 
     for cand in cands:
@@ -421,6 +447,8 @@ def ref_resolve(cfg, script):
                 rr = None
                 if has:
                     rr = ["10.0.0.1"] if o == "answer" else ["10.0.0.2"]
+                    if cfg.get("rdtype", "A") != "A" and o == "answer":
+                        rr = ['"10.0.0.1"']
                 return done("Answer", qname=ct, canonical=canon.to_text(), rrset=rr, ttl_left=float(ttl), ns="ns%d" % server)
             elif o in ("nxdomain", "dangling-nx"):
                 nx.append(ct)
@@ -515,6 +543,9 @@ def judge(cfg, script):
         if not (sync["result"]["kind"] == "Answer" and sync["result"]["ttl_left"] <= 0):
             probs.append(("cache/second-resolution-" + str(sync.get("second")).split(":")[0],
                           "second identical resolution right after: %s" % sync.get("second")))
+    if sync.get("other_class_probe", "queried") != "queried":
+        probs.append(("cache/other-class-" + sync["other_class_probe"].split(":")[0],
+                      "after resolving in class %s, the same name/type in class IN was %s" % (cfg.get("rdclass"), sync["other_class_probe"])))
     ref = ref_resolve(cfg, script)
     if ref is None:
         probs.append(("model/real-terminated-early", "real resolver ended after %d outcomes, model wants more" % len(script)))
@@ -522,7 +553,7 @@ def judge(cfg, script):
         ck = dict(sync)
         if "cache_keys" in ck:
             ck["cache_keys"] = sorted(ck["cache_keys"])
-            ref = dict(ref, cache_keys=sorted((k[0], k[1]) for k in ref["cache_keys"]))
+            ref = dict(ref, cache_keys=sorted(tuple(k) for k in ref["cache_keys"]))
         probs += compare(ck, ref, "model")
     probs += invariants(cfg, script, sync)
     return sync, probs
@@ -621,6 +652,10 @@ def configs(ctx):
     add("cache preload nodata", cache="cache", preload=[["www.example.", "nodata"]], alphabet=["answer"])
     add("cache preload nodata no raise", cache="cache", raise_on_no_answer=False, preload=[["www.example.", "nodata"]], alphabet=["answer"])
     add("call lifetime override", call_lifetime=1.5, alphabet=["answer", "timeout", "servfail", "truncated"], retry_servfail=True)
+    add("class CH TXT with cache", rdclass="CH", rdtype="TXT", cache="cache", servers=1, qname="www", search=["a."], search_arg=True,
+        alphabet=["answer", "nodata", "nxdomain", "refused"])
+    add("class CH TXT LRU no raise", rdclass="CH", rdtype="TXT", cache="lru", servers=1, raise_on_no_answer=False,
+        alphabet=["answer", "nodata", "nxdomain", "timeout"])
     add("short timeout", timeout=0.4, lifetime=1.0, servers=1, alphabet=["answer", "timeout", "formerr"])
     if not ctx.quick:
         add("3 servers", servers=3, lifetime=2.0,
